@@ -4,4 +4,5 @@ import DaeVerif.C09.CtlProofs
 import DaeVerif.C09.CtlProv
 import DaeVerif.C09.UdpProofs
 import DaeVerif.C09.PipeProofs
+import DaeVerif.C09.LoopProofs
 /-! Helper lemmas and invariants for C09 (the property theorems are in `Props.lean`); one file per model. -/
